@@ -722,6 +722,7 @@ pub fn feelsem_table() -> Vec<(&'static str, &'static str, &'static str)> {
   const INNULL: &str = "in over a list with a null item is the disjunction over the items";
   const INLIST: &str = "a list in a list of lists is equality with some item";
   const IFCOND: &str = "if with a null condition takes the else branch";
+  const TYPENAME: &str = "a type name after instance of denotes the type, whatever the scope binds to a variable of that spelling";
   vec![
     // a. DMN 1.3 10.3.2.13.2/3: the arguments are matched with the formal parameters; a mismatch is null
     (ARITY, "(function(a) a)(1, 2)", "null"),
@@ -802,6 +803,14 @@ pub fn feelsem_table() -> Vec<(&'static str, &'static str, &'static str)> {
     (IFCOND, "if false then 2 else 3", "3"),
     (IFCOND, "if true then 2 else 3", "2"),
     (IFCOND, "if 1 > null then 2 else 3", "3"),
+    // n. DMN 1.3 grammar rule 51 / 52: what follows `instance of` is a type, not an expression; a context entry spelled
+    // like a built-in type does not change what the type is (found by C13's family reuse in the thorough tier)
+    (TYPENAME, "{number: \"a\", r: 1 instance of number}.r", "true"),
+    (TYPENAME, "{number: \"a\", r: \"x\" instance of number}.r", "false"),
+    (TYPENAME, "{string: 5, r: \"x\" instance of string}.r", "true"),
+    (TYPENAME, "{boolean: 5, r: 5 instance of boolean}.r", "false"),
+    (TYPENAME, "{number: 5, r: 1 instance of number}.r", "true"),
+    (TYPENAME, "{n: 5, r: 1 instance of number}.r", "true"),
   ]
 }
 
